@@ -112,7 +112,8 @@ Definition shared_expire_check (tolE tolS : Q) (cfg : ccfg Q) (s0 : cstate Q) (l
 
 (* C14: invariants of the state right after k-means initialisation (evaluated on the implementation's state) :
    1 = counts do not add up to the number of valid tokens, 2 = running sums <> code * count,
-   3 = count-weighted sum of codes <> sum of the data (Euclid), 4 = a seed is not a data row, 5 = flag not set,
+   3 = count-weighted sum of codes <> sum of the data (Euclid; per coordinate, in a band relative to the sum of the ABSOLUTE values of the
+   data: the two cluster sums may cancel, so the float32 rounding is relative to the summands and not to the result), 4 = a seed is not a data row, 5 = flag not set,
    6 = a count is negative or not an integer *)
 Definition is_nat_q (q : Q) : bool := Qle_bool 0 q && Qeq_bool (inject_Z (Qfloor q)) q.
 Definition kmeans_state_check (cosine : bool) (tol : Q) (data seeds : list Qv) (after : cstate Q) : nat :=
@@ -122,7 +123,9 @@ Definition kmeans_state_check (cosine : bool) (tol : Q) (data seeds : list Qv) (
   else if negb (forallb is_nat_q cs) then 6
   else if negb (Qeq_bool (fsum Q_ops cs) (inject_Z (Z.of_nat (length data)))) then 1
   else if negb (mclose tol (map2 (fun m b => vscale Q_ops b m) (embed after) cs) (embed_avg after)) then 2
-  else if negb cosine && negb (vclose tol (vsum Q_ops d (map2 (fun m b => vscale Q_ops b m) (embed after) cs)) (vsum Q_ops d data)) then 3
+  else if negb cosine && negb (all2 (fun ab mag => Qclose (Qred (tol * (1 + mag))) (fst ab) (snd ab))
+                                    (combine (vsum Q_ops d (map2 (fun m b => vscale Q_ops b m) (embed after) cs)) (vsum Q_ops d data))
+                                    (vsum Q_ops d (map (map Qabsq) data))) then 3
   else if negb (forallb (fun s => existsb (veqb_q s) data) seeds) then 4
   else 0.
 (* every code lies in the coordinate-wise bounding box of the data (necessary for being in the convex hull) *)
